@@ -473,6 +473,10 @@ var prDedicated = []string{
 	"if a; then b & fi\n", "if a &\nthen b; fi\n", "while a &\ndo b; done\n", "if a; b &\nthen c\nfi\n", "until a; do b; done\n",
 	"case x in esac\n", "case x in a) ;; b) ;; esac\n", "case x in\na|b) c\nesac\n", "for x do a; done\n", "for x\ndo a\ndone\n", "for x in; do a; done\n",
 	"a=1 b=2 c >f 2>&1 <g\n", ">f a\n", "a() { b; } >f\n", "! a | b && c || d &\n", "\\é 'a b' \"$x\" ${y:-z} $(c) `d` $((1 + 2))\n",
+	// substitutions that span lines, also inside here-document bodies and double quotes
+	"cat <<E\n$((\n+2)) x\nE\n", "cat <<E\n$(a\nb) x\nE\n", "cat <<E; c <<F\n`a\nb`\nE\n$((1 +\n2))\nF\n", "echo $((\n1 +\n2))\n", "echo \"$(a\nb) $((\n1))\"\n",
+	"a <<E || b && ! { c\n$((\n+2))\nE\n}\n", "a <<E | { b\n$(c\nd)\nE\n}\n", "a <<E && (b\n$((\n1))\nE\n)\n",
+	"a <<E\n$(b <<F\nx\nF\n)\nE\n", "{ a <<E\n$((\n1))\nE\n}\n", "echo $(a\nb) $(\nc\n)\n",
 	"if a; then\nb\nelif c; then\nd\nelse\ne\nfi\n", "{\na\nb; c\n}\n", "(a; b)\n", "(\na\n)\n", "a; b; c\n", "a & b &\n",
 }
 
